@@ -62,6 +62,24 @@ def library_dict(tb, letters, form_no):
     return un.create_dict(**kw)
 
 
+# An explicitly supplied psi / rho is the caller's tensor: the same values may sit in memory contiguously, as a
+# view with the last two axes transposed in storage, or as every second element of a wider buffer.
+LAYOUTS = ("contiguous", "transposed-storage", "strided")
+
+
+def relayout(t, c):
+    kind = LAYOUTS[c % len(LAYOUTS)]
+    if kind == "transposed-storage" and t.dim() >= 3:
+        return t.transpose(-1, -2).contiguous().transpose(-1, -2)
+    if kind == "transposed-storage":
+        return t.t().contiguous().t()                   # (2, N) stored as (N, 2)
+    if kind == "strided":
+        big = torch.full(tuple(t.shape[:-1]) + (2 * t.shape[-1],), 77.0, dtype=t.dtype)
+        big[..., ::2] = t
+        return big[..., ::2]
+    return t
+
+
 class Replayer:
     def __init__(self, chk, tb, rng):
         self.chk, self.tb, self.rng = chk, tb, rng
@@ -84,6 +102,11 @@ class Replayer:
             state, arg = L.state_for(skind, n), ud
         basis = L.basis_form(letters, FORMS[c % 4])
         space = L.space_tensor(self.tb.rows[n])
+        if c % 5 == 2:
+            # the enumerations the library hands out are the caller's: used as scratch here (as sample() with
+            # overwrite=True would) before the rotation, for every size the fast paths may ask for themselves
+            for k in range(1, n + 1):
+                state.generate_hilbert_space(k).fill_(0.5)
         return state, arg, basis, space, dict(state=skind, basis_form=FORMS[c % 4],
                                               unitaries="argument" if arg is not None else "state's own")
 
@@ -119,7 +142,8 @@ class Replayer:
         letters = tuple(case["basis"])
         n, nf, x, y = len(letters), case["nfac"], case["x"], case["y"]
         state, arg, basis, space, how = self.setup("psi", letters)
-        t = L.vec_tensor(x)
+        t = relayout(L.vec_tensor(x), self.count)
+        how["layout"] = LAYOUTS[self.count % len(LAYOUTS)]
         sc = L.sqrt2pow(nf)
         cls = self.cls(letters)
         out = un.rotate_psi(state, basis, space, unitaries=arg, psi=t)
@@ -134,6 +158,16 @@ class Replayer:
         exp = [y[k] for k in idxs]
         if err > L.INT_TOL or got != exp:
             self.bad("rotate_psi_inner_prod:explicit-psi:" + cls, case, how, outcomes=idxs, expected=exp, got=got)
+        if self.count % 3 == 1:       # linearity: the same vector in other units (see rho_case)
+            for e2 in (-50, 40):
+                f = 2.0 ** e2
+                got2, err2 = L.to_gauss(un.rotate_psi_inner_prod(state, basis, states, unitaries=arg, psi=t * f) / f, sc)
+                gotv, errv = L.to_gauss(un.rotate_psi(state, basis, space, unitaries=arg, psi=t * f) / f, sc)
+                self.chk.evaluations += 2
+                if err2 > L.INT_TOL or got2 != exp:
+                    self.bad("rotate_psi_inner_prod:explicit-psi:scaled:" + cls, case, how, factor="2^%d" % e2, expected=exp, got=got2)
+                if errv > L.INT_TOL or gotv != y:
+                    self.bad("rotate_psi:explicit-psi:scaled:" + cls, case, how, factor="2^%d" % e2, expected=y, got=gotv)
         if self.count % 9 == 0:
             bi, bs = self.big_batch(letters)
             got = L.cplx.numpy(un.rotate_psi_inner_prod(state, basis, bs, unitaries=arg, psi=t)) * sc
@@ -164,7 +198,8 @@ class Replayer:
         n, nf, x, y = len(letters), case["nfac"], case["x"], case["y"]
         N = 2 ** n
         state, arg, basis, space, how = self.setup("rho", letters)
-        t = L.mat_tensor(x)
+        t = relayout(L.mat_tensor(x), self.count)
+        how["layout"] = LAYOUTS[self.count % len(LAYOUTS)]
         sc = L.sqrt2pow(2 * nf)
         cls = self.cls(letters)
         out = un.rotate_rho(state, basis, space, unitaries=arg, rho=t)
@@ -186,6 +221,21 @@ class Replayer:
             self.bad("rotate_rho_probs:explicit-rho" if transposed else "rotate_rho_probs:explicit-rho:other:" + cls,
                      case, how, outcomes=idxs, expected=diag, got=got,
                      note="equals diag(U rho^T U^H)" if transposed else "")
+        if self.count % 3 == 1:
+            # rotation is linear: the same matrix in other units (a power of two: exact in binary floating point)
+            # gives the same integers after scaling back - a state need not be normalised, small entries are entries
+            for e2 in (-50, 40):
+                f = 2.0 ** e2
+                pr2 = un.rotate_rho_probs(state, basis, states, unitaries=arg, rho=t * f)
+                got2, err2 = L.to_ints(pr2 / f, sc)
+                out2 = un.rotate_rho(state, basis, space, unitaries=arg, rho=t * f)
+                gotm, errm = L.to_gauss(out2 / f, sc)
+                self.chk.evaluations += 2
+                if err2 > L.INT_TOL or got2 != diag:
+                    self.bad("rotate_rho_probs:explicit-rho:scaled:" + cls, case, how, factor="2^%d" % e2, outcomes=idxs,
+                             expected=diag, got=got2)
+                if errm > L.INT_TOL or gotm != y:
+                    self.bad("rotate_rho:explicit-rho:scaled:" + cls, case, how, factor="2^%d" % e2, expected=y, got=gotm)
         if self.count % 9 == 0:
             bi, bs = self.big_batch(letters)
             got = un.rotate_rho_probs(state, basis, bs, unitaries=arg, rho=t).detach().cpu().numpy() * sc
